@@ -47,7 +47,9 @@ class P:
         vals += [mk_num(0, 0, 0), mk_num(0, 1, 0), "l(b(1))", "l(s(%s))" % hx("1"), "m(%s=%s)" % (mk_num(0, 1, 0), mk_num(0, 2, 0))]
         for acc in ("integer", "decimal", "string", "bool", "list", "float"):
             for v in vals: items.append(("ACC:%s:%s" % (acc, v), ("acc", acc, v)))
-        ms = [0, 1, 3, 10, 100, 123000, 2**63 - 1, 2**63, 2**63 + 1, 2**64, 2**96 - 1, 10**28, 9223372036854775807000, 9223372036854775808000, 5 * 10**27]
+        ms = [0, 1, 3, 10, 100, 123000, 2**63 - 1, 2**63, 2**63 + 1, 2**64, 2**96 - 1, 10**28, 9223372036854775807000, 9223372036854775808000, 5 * 10**27,
+              # a short fraction followed by a long run of zeros (2.5000000000 ...): not an integer at the scales where the zeros run out
+              25 * 10**9, 10**9, 15 * 10**18, 35 * 10**17, 125 * 10**26]
         for m in ms:
             for s in range(0, 29):
                 for neg in (0, 1):
